@@ -1393,6 +1393,17 @@ class Engine:
                 if pred_(node):
                     self._hooks_fired.add(id(hk_))
                     hk_(Spec(self, st), st, node)
+        # opt-in (per contract): a statement that calls one of the named opaque functions may raise there (any Exception): the path on which it does goes to the handler
+        mr = getattr(self, "may_raise_calls", None)
+        if mr and isinstance(node, (ast.Assign, ast.Expr, ast.AugAssign)):
+            hits = [c for c in ast.walk(node) if isinstance(c, ast.Call) and ((self.dotted(c.func) or "").split(".")[-1] in mr)]
+            for c in hits:
+                cond = z3.Bool(fresh_name("raises!%s@%d" % ((self.dotted(c.func) or "?").split(".")[-1], node.lineno)))
+                s_exc = st.fork()
+                s_exc.assume(cond)
+                if self.feasible(s_exc):
+                    K["exc"](s_exc, "Exception", node)
+                st.assume(z3.Not(cond))
         # opt-in (per contract): `x = d[k]` on a dictionary splits into the path on which the key is missing (KeyError goes to the handler) and the path on which it is present
         if getattr(self, "keyerror_paths", False) and isinstance(node, ast.Assign) and isinstance(node.value, ast.Subscript) and isinstance(node.value.value, ast.Name):
             base = st.env.get(node.value.value.id)
